@@ -215,8 +215,55 @@ def eqOk (qa qb : Quantity) (constA constB sameDomain : Bool) (equal : Bool) : B
   !(mustRefuse qa qb constA constB sameDomain) || !equal
 
 /-- A transform that integrates over the source domain's variable (units `var`): units change
-    by exactly `var`, the quantity is kept. -/
+    by exactly `var` measured in cycles (the radian never enters: `df = d omega / (2 pi)`), the
+    quantity is kept. -/
 def transformOk (qa : Quantity) (ua : U) (var : U) (qr : Quantity) (ur : U) : Bool :=
-  decide (dimU ur = dimU ua + dimU var) && qr == qa
+  decide (dimU ur = dimU ua + dimU var) && qr == qa && decide (ur.radian = ua.radian)
+
+/-! ## domain changes (call syntax `X(t)`, `X(s)`, `X(f)`, `X(omega)`, `X(jw)`, `X(jf)` and the
+    named methods), judged step by step and route against route -/
+
+/-- the domains whose variable is a frequency: the transform into them integrates over time
+    (units x s), the transform out of them back to time integrates over frequency in cycles,
+    `df = d omega / (2 pi)` (units x Hz) -- never over rad/s -/
+def Domain.isFrequencyLike : Domain → Bool
+  | .laplace | .fourier | .angularFourier | .frequencyResponse | .angularFrequencyResponse => true
+  | _ => false
+
+/-- the frequency-response domains, where Lcapy gives signals (voltage, current and their
+    squares) the units of the time-domain signal instead of a spectral density -/
+def Domain.isResponse : Domain → Bool
+  | .frequencyResponse | .angularFrequencyResponse => true
+  | _ => false
+
+def Quantity.isSignalLike : Quantity → Bool
+  | .voltage | .current | .voltagesquared | .currentsquared => true
+  | _ => false
+
+/-- the product quantities: their class defaults describe products of spectra (V^2/Hz^2, W), not
+    transforms of products, so a rebuild with class defaults changes their time exponent
+    (recorded observation, DESIGN.md C18); only the quantity and radian clauses apply to them -/
+def Quantity.isProduct : Quantity → Bool
+  | .power | .voltagesquared | .currentsquared | .impedancesquared | .admittancesquared => true
+  | _ => false
+
+/-- angle-aware equality of units: same SI dimension and same power of the radian -/
+def sameUnits (u w : U) : Bool := decide (dimU u = dimU w) && decide (u.radian = w.radian)
+
+/-- one domain change `src → dst` of an expression of quantity `qa` and units `ua` giving
+    quantity `qr`, units `ur`:
+    the quantity is kept; the radian never enters; time → frequency-like multiplies by seconds,
+    frequency-like → time by hertz, frequency-like → frequency-like (a substitution) by nothing.
+    The dimension clause is not applied to expressions without quantity, to the product
+    quantities, and to signals entering or leaving a frequency-response domain (Lcapy's
+    convention there is judged by route independence instead). -/
+def stepOk (src dst : Domain) (qa : Quantity) (ua : U) (qr : Quantity) (ur : U) : Bool :=
+  qr == qa && decide (ur.radian = ua.radian) &&
+  (!qa.isDefined || qa.isProduct || (qa.isSignalLike && (src.isResponse || dst.isResponse)) ||
+    (if src = .time && dst.isFrequencyLike then decide (dimU ur = dimU ua + ⟨0, 0, 1⟩)
+     else if src.isFrequencyLike && dst = .time then decide (dimU ur = dimU ua - ⟨0, 0, 1⟩)
+     else if src.isFrequencyLike && dst.isFrequencyLike then decide (dimU ur = dimU ua)
+     else if src = dst then decide (dimU ur = dimU ua)
+     else true))
 
 end Lcapy.Dim
